@@ -46,6 +46,9 @@ func init() {
 			{ID: "C01.h", Title: "CAS-FAIL-FATAL", Template: "T2", MinInst: 1,
 				Rule: "every return reachable from the error edge of Replace wraps errFatal",
 				Run:  c01h},
+			{ID: "C01.i", Title: "TREE-CONSTRUCTION", Template: "T6+T1", MinInst: 4,
+				Rule: "the new tree head is computed from a hash-reader overlay based at the old size over the verified edge tiles, to which the record hash of every sequenced leaf's MerkleTreeLeaf is appended (error checked); new hash tiles are generated from that overlay for [old size, new size)",
+				Run:  c01i},
 		},
 	})
 }
@@ -613,6 +616,115 @@ func c01h(c *Ctx) {
 			if !bad {
 				c.add(Result{Instance: inst, Verdict: Discharged, Sites: []string{s.Pos()}, Evals: n, Detail: fmt.Sprintf("%d return(s) on the error edge, all wrap errFatal", n), Witnesses: ws})
 			}
+		}
+	}
+}
+
+func c01i(c *Ctx) {
+	for _, f := range sequencers(c.P) {
+		c.touch(f)
+		info := f.Info()
+		g := f.Graph()
+		recv := f.recvObj()
+		isRecv := func(o types.Object) bool { return o == recv }
+		ov := f.Calls(Callee{pkgTorch, "", "NewHashReaderOverlay"})
+		if len(ov) != 1 {
+			c.Bad(f.Name+" overlay", f.Pos(f.Decl), "the new tree is not computed over a hash-reader overlay of the existing tree")
+			continue
+		}
+		var ovObj types.Object
+		if a, ok := ov[0].Node.(*ast.AssignStmt); ok {
+			ovObj = objOf(info, a.Lhs[0])
+		}
+		okBase := f.IsFieldPathOf(ov[0].Call.Args[0], isRecv, "tree", "N")
+		okReader := false
+		if call, ok := ast.Unparen(ov[0].Call.Args[1]).(*ast.CallExpr); ok && matchCallee(info, call, Callee{pkgCtlog, "Log", "edgeTilesHashReader"}) {
+			okReader = isMethodOnPath(f, call, "edgeTilesHashReader", isRecv)
+		}
+		if okBase && okReader && ovObj != nil {
+			c.OK(f.Name+" overlay", "NewHashReaderOverlay(l.tree.N, l.edgeTilesHashReader())", []string{ov[0].Pos()})
+		} else {
+			c.Bad(f.Name+" overlay", ov[0].Pos(), "the overlay is not based at the in-memory tree size over the verified edge tiles")
+			continue
+		}
+		// every sequenced leaf is appended
+		app := f.Calls(Callee{pkgTorch, "HashReaderOverlay", "AppendRecordHash"})
+		ale := f.Calls(Callee{pkgCtlog, "PendingLogEntry", "asLogEntry"})
+		inst := f.Name + " leaves appended"
+		if len(app) != 1 || len(ale) != 1 {
+			c.Bad(inst, ov[0].Pos(), fmt.Sprintf("expected one AppendRecordHash per sequenced leaf, found %d append site(s) for %d asLogEntry site(s)", len(app), len(ale)))
+		} else {
+			a := app[0]
+			okArg := false
+			if sel, ok := ast.Unparen(a.Call.Fun).(*ast.SelectorExpr); ok && objOf(info, sel.X) == ovObj {
+				if rh, ok := ast.Unparen(a.Call.Args[0]).(*ast.CallExpr); ok && matchCallee(info, rh, Callee{pkgTlog, "", "RecordHash"}) {
+					if ml, ok := ast.Unparen(rh.Args[0]).(*ast.CallExpr); ok && matchCallee(info, ml, Callee{pkgRoot, "LogEntry", "MerkleTreeLeaf"}) {
+						if ms, ok := ast.Unparen(ml.Fun).(*ast.SelectorExpr); ok {
+							if _, ok := f.IsCallResult(ms.X, 0, Callee{pkgCtlog, "PendingLogEntry", "asLogEntry"}); ok {
+								okArg = true
+							}
+						}
+					}
+				}
+			}
+			okErr, how := errDiscipline(a)
+			// each iteration that builds an entry appends it before the index advances
+			var incs []Site
+			if len(f.Calls(specHashTreeHead)) == 1 {
+				if so := objOf(info, argByName(info, f.Calls(specHashTreeHead)[0].Call, "n")); so != nil {
+					for _, d := range f.Defs(so) {
+						if inc, ok := d.Node.(*ast.IncDecStmt); ok {
+							incs = append(incs, f.Find(func(n ast.Node) bool { return n == ast.Node(inc) })...)
+						}
+					}
+				}
+			}
+			skip := false
+			if len(incs) == 1 {
+				if pt, _ := g.Reach(ale[0].After(), Cut{Stop: func(p Point, _ ast.Node) bool { return p == a.P }}, atSite(incs[0])); pt != nil {
+					skip = true
+				}
+			}
+			switch {
+			case !okArg:
+				c.Bad(inst, a.Pos(), "what is appended to the tree is not RecordHash(MerkleTreeLeaf()) of the entry built for this leaf")
+			case !okErr:
+				c.Bad(inst, a.Pos(), "the error of AppendRecordHash is not handled ("+how+")")
+			case skip || len(incs) != 1:
+				c.Bad(inst, a.Pos(), "the index can advance for a leaf whose hash was not appended to the tree")
+			default:
+				c.add(Result{Instance: inst, Verdict: Discharged, Evals: 3, Sites: []string{a.Pos()}, Detail: "AppendRecordHash(RecordHash(entry.MerkleTreeLeaf())) for every sequenced leaf, before n++, error handled", Witnesses: []Witness{f.WitDelete(a.Node)}})
+			}
+		}
+		// tree head from the overlay
+		for _, h := range f.Calls(specHashTreeHead) {
+			if objOf(info, argByName(info, h.Call, "r")) == ovObj {
+				c.OK(f.Name+" head from overlay", "hashTreeHead(n, overlay, ts)", []string{h.Pos()})
+			} else {
+				c.Bad(f.Name+" head from overlay", h.Pos(), "the root hash that is signed is not computed from the overlay the leaves were appended to")
+			}
+		}
+		// hash tiles
+		nt := f.Calls(Callee{pkgTlog, "", "NewTiles"})
+		rt := f.Calls(Callee{pkgTlog, "", "ReadTileData"})
+		inst = f.Name + " hash tiles"
+		if len(nt) != 1 || len(rt) != 1 {
+			c.Bad(inst, f.Pos(f.Decl), "new hash tiles are not generated with tlog.NewTiles / ReadTileData")
+			continue
+		}
+		var sizeObj types.Object
+		for _, h := range f.Calls(specHashTreeHead) {
+			sizeObj = objOf(info, argByName(info, h.Call, "n"))
+		}
+		okTiles := f.IsFieldPathOf(argByName(info, nt[0].Call, "oldTreeSize"), isRecv, "tree", "N") && objOf(info, argByName(info, nt[0].Call, "newTreeSize")) == sizeObj && sizeObj != nil
+		if hv, ok := constInt(info, argByName(info, nt[0].Call, "h")); !ok || hv != 8 {
+			okTiles = false
+		}
+		okRead := objOf(info, rt[0].Call.Args[1]) == ovObj
+		if okTiles && okRead {
+			c.add(Result{Instance: inst, Verdict: Discharged, Evals: 3, Sites: []string{nt[0].Pos(), rt[0].Pos()}, Detail: "NewTiles(TileHeight, l.tree.N, n) read from the overlay"})
+		} else {
+			c.Bad(inst, nt[0].Pos(), "hash tiles are not generated for [old size, new size) from the overlay that produced the signed root")
 		}
 	}
 }
